@@ -18,7 +18,9 @@ import (
 	"errors"
 	"fmt"
 	"math"
+	"runtime/debug"
 	"sort"
+	"strconv"
 	"sync"
 	"sync/atomic"
 	"testing"
@@ -957,7 +959,7 @@ func c01GenSeq(rt *rapid.T) c01Case {
 }
 
 func TestVerif_C01_model(t *testing.T) {
-	kit.Run(t, "C01", "breaker-model", kit.Opts{Quick: 800, Thorough: 32000}, c01GenSeq,
+	kit.Run(t, "C01", "breaker-model", kit.Opts{Quick: 700, Thorough: 32000}, c01GenSeq,
 		func(c c01Case) kit.Verdict { return c01InterpSeq(t, c) })
 }
 
@@ -1433,7 +1435,7 @@ func c01GenPar(rt *rapid.T) c01PCase {
 }
 
 func TestVerif_C01_parallel(t *testing.T) {
-	kit.Run(t, "C01", "breaker-parallel", kit.Opts{Quick: 3000, Thorough: 64000}, c01GenPar,
+	kit.Run(t, "C01", "breaker-parallel", kit.Opts{Quick: 2500, Thorough: 64000}, c01GenPar,
 		func(c c01PCase) kit.Verdict { return c01InterpPar(t, c) })
 }
 
@@ -1579,4 +1581,240 @@ func TestVerif_C01_stress(t *testing.T) {
 			Allow: rapid.Bool().Draw(rt, "allow"),
 		}
 	}, c01InterpStress)
+}
+
+// ---------------------------------------------------------------- many names in one process (bulk rule)
+
+// A long-lived process registers many names (target/method pairs). However many
+// names the registry already holds, every name must keep a history of its own.
+// A case registers N bulk names through Get / Do / DoWithAcceptable and places
+// probe pairs (one name that only fails, one that only succeeds, used
+// alternately) before, inside, around the end of and after the bulk.
+type c01BulkCase struct {
+	N     int   `json:"n"`     // bulk names
+	Pairs []int `json:"pairs"` // a pair is placed when this many bulk names are registered
+	Skew  int64 `json:"skew,omitempty"`
+}
+
+func c01BulkName(i int) string { return "n" + strconv.FormatInt(int64(i), 36) }
+
+func c01InterpBulk(t *testing.T, c c01BulkCase) (v kit.Verdict) {
+	var fail string
+	classes := map[string]bool{}
+	type pair struct {
+		at           int
+		bad, good    string
+		hBad, hGood  Breaker
+		okRuns       int64 // admitted calls of the healthy name
+		failRuns     int64 // admitted calls of the failing name
+		rejectedBad  int
+		registeredAt int // names in the registry when the pair was created
+	}
+	var pairs []*pair
+	res := kit.Bubble(t, func() {
+		c01ResetRegistry()
+		defer func() {
+			// hygiene only: do not keep tens of thousands of breakers alive for the other rules
+			c01ResetRegistry()
+			debug.FreeOSMemory()
+		}()
+		if c.Skew > 0 {
+			time.Sleep(time.Duration(c.Skew))
+		}
+		registered := 0
+		type sample struct {
+			name string
+			h    Breaker
+		}
+		var samples []sample
+		pred := func(err error) bool { return err == nil }
+		// use drives one pair: failures on the bad name alternate with successes on the good one
+		use := func(p *pair, rounds int, what string) bool {
+			for j := 0; j < rounds; j++ {
+				ranBad := false
+				err := Do(p.bad, func() error { ranBad = true; return c01ErrA })
+				switch {
+				case !ranBad && err == ErrServiceUnavailable:
+					p.rejectedBad++
+				case ranBad && err == c01ErrA:
+					p.failRuns++
+				default:
+					fail = fmt.Sprintf("%s: failing name %q call %d: ran=%v err=%v", what, p.bad, j, ranBad, err)
+					return false
+				}
+				ranGood := false
+				var errG error
+				if j%2 == 0 {
+					errG = DoWithAcceptable(p.good, func() error { ranGood = true; return nil }, pred)
+				} else {
+					errG = Get(p.good).Do(func() error { ranGood = true; return nil })
+				}
+				if !ranGood || errG != nil {
+					fail = fmt.Sprintf("%s: name %q has only ever succeeded (%d calls) but its call %d was rejected (ran=%v err=%v); %d names registered when it was created, %d now",
+						what, p.good, p.okRuns, j, ranGood, errG, p.registeredAt, registered)
+					return false
+				}
+				p.okRuns++
+			}
+			return true
+		}
+		check := func(p *pair, what string) bool {
+			if hb, hg := Get(p.bad), Get(p.good); hb != p.hBad || hg != p.hGood {
+				fail = fmt.Sprintf("%s: Get(%q)/Get(%q) no longer return the breakers they returned first", what, p.bad, p.good)
+				return false
+			}
+			if p.hBad == p.hGood {
+				fail = fmt.Sprintf("%s: names %q and %q are served by the same breaker (%d names registered when they were created)", what, p.bad, p.good, p.registeredAt)
+				return false
+			}
+			acc, tot, ok := c01Hist(p.hGood)
+			if !ok || acc != p.okRuns || tot != p.okRuns {
+				fail = fmt.Sprintf("%s: window of the only-succeeding name %q is (successes=%d,total=%d), its admitted calls are (%d,%d)", what, p.good, acc, tot, p.okRuns, p.okRuns)
+				return false
+			}
+			acc, tot, ok = c01Hist(p.hBad)
+			if !ok || acc != 0 || tot != p.failRuns {
+				fail = fmt.Sprintf("%s: window of the only-failing name %q is (successes=%d,total=%d), its admitted calls are (0,%d)", what, p.bad, acc, tot, p.failRuns)
+				return false
+			}
+			return true
+		}
+		place := func(at int) bool {
+			p := &pair{at: at, bad: fmt.Sprintf("bad@%d", at), good: fmt.Sprintf("good@%d", at), registeredAt: registered}
+			pairs = append(pairs, p)
+			p.hBad, p.hGood = Get(p.bad), Get(p.good)
+			registered += 2
+			what := fmt.Sprintf("pair placed after %d bulk names", at)
+			return use(p, 120, what) && check(p, what)
+		}
+		next := 0
+		sorted := append([]int{}, c.Pairs...)
+		sort.Ints(sorted)
+		for i := 0; i <= c.N; i++ {
+			for next < len(sorted) && sorted[next] <= i {
+				if !place(sorted[next]) {
+					return
+				}
+				next++
+			}
+			if i == c.N {
+				break
+			}
+			name := c01BulkName(i)
+			ran := true
+			var err error
+			switch i % 3 {
+			case 0:
+				_ = Get(name)
+			case 1:
+				ran = false
+				err = Do(name, func() error { ran = true; return nil })
+			default:
+				ran = false
+				err = DoWithAcceptable(name, func() error { ran = true; return c01ErrB }, func(error) bool { return true })
+				if err == c01ErrB {
+					err = nil
+				}
+			}
+			if !ran || err != nil {
+				fail = fmt.Sprintf("bulk name %d (%q): first call on a fresh name ran=%v err=%v", i, name, ran, err)
+				return
+			}
+			registered++
+			if i%997 == 0 || i >= c.N-3 {
+				samples = append(samples, sample{name, Get(name)})
+			}
+		}
+		for next < len(sorted) {
+			if !place(sorted[next]) {
+				return
+			}
+			next++
+		}
+		// afterwards: every pair again, every sampled bulk name still maps to its own breaker
+		for _, p := range pairs {
+			what := fmt.Sprintf("end of case (%d names registered): pair placed after %d bulk names", registered, p.at)
+			if !use(p, 40, what) || !check(p, what) {
+				return
+			}
+			if p.rejectedBad == 0 {
+				fail = fmt.Sprintf("%s: %d consecutive failures on %q were all admitted: never cut off", what, p.failRuns, p.bad)
+				return
+			}
+		}
+		seen := map[Breaker]string{}
+		for _, s := range samples {
+			if Get(s.name) != s.h {
+				fail = fmt.Sprintf("Get(%q) returns another breaker than at registration", s.name)
+				return
+			}
+			if other, dup := seen[s.h]; dup {
+				fail = fmt.Sprintf("bulk names %q and %q share one breaker", other, s.name)
+				return
+			}
+			seen[s.h] = s.name
+		}
+	})
+	for _, p := range c.Pairs {
+		switch {
+		case p <= 0:
+			classes["pair-before-bulk"] = true
+		case p >= c.N:
+			classes["pair-after-bulk"] = true
+		default:
+			classes["pair-inside-bulk"] = true
+		}
+	}
+	switch {
+	case c.N >= 65536:
+		classes["names>=65536"] = true
+	case c.N >= 4096:
+		classes["names>=4096"] = true
+	}
+	v.NonTrivial = c.N >= 500 && len(c.Pairs) > 1
+	for k := range classes {
+		v.Classes = append(v.Classes, k)
+	}
+	sort.Strings(v.Classes)
+	if fail != "" {
+		v.Fail = fail
+	} else if !res.OK() {
+		v.Fail = "bubble: " + res.String()
+	}
+	return v
+}
+
+// c01BulkCases: sizes around round thresholds; the seed moves the sizes by a few
+// names and the pairs inside the bulk. Quick: a small case and one just above
+// 65 536 names; thorough: every threshold (one case per shard).
+func c01BulkCases(thorough bool) []c01BulkCase {
+	s := kit.Seed()
+	rnd := func(n int) int { // tiny LCG, a function of the seed only
+		s = s*6364136223846793005 + 1442695040888963407
+		return int((s >> 33) % uint64(n))
+	}
+	mk := func(n int) c01BulkCase {
+		n += rnd(7) - 3
+		return c01BulkCase{N: n, Skew: int64(rnd(1_000_000_000)),
+			Pairs: []int{0, 1 + rnd(n-1), n - 1 - rnd(3), n, n + 1}}
+	}
+	sizes := []int{1000, 65536 + 4}
+	if thorough {
+		sizes = []int{1000, 4096, 10000, 32768, 65536 - 4, 65536, 65536 + 4, 70000, 100000}
+	}
+	var out []c01BulkCase
+	for _, n := range sizes {
+		out = append(out, mk(n))
+	}
+	return out
+}
+
+func TestVerif_C01_bulk_names(t *testing.T) {
+	kit.Enumerate(t, "C01", "breaker-many-names", func(yield func(c01BulkCase) bool) {
+		for _, c := range c01BulkCases(kit.Thorough()) {
+			if !yield(c) {
+				return
+			}
+		}
+	}, func(c c01BulkCase) kit.Verdict { return c01InterpBulk(t, c) })
 }
